@@ -450,6 +450,9 @@ type Gen struct {
 	nextF  int64
 	MaxTok int64          // fresh block tokens are drawn from 1..MaxTok (0 = whole pool)
 	Ever   map[int64]bool // every block token ever handed to WriteHeaders in this history
+	// the previous op moved entries to the legacy bucket: prefer a rollback
+	// as long as the filter tip allows, so that its range mixes both layouts
+	afterLegacy bool
 }
 
 func (g *Gen) fresh() int64 {
@@ -557,6 +560,12 @@ func (g *Gen) Next(malformed bool) Op {
 	r := g.R
 	x := r.Intn(100)
 	tipH := int64(len(g.Chain)) - 1
+	if g.afterLegacy {
+		g.afterLegacy = false
+		if room := int64(len(g.Chain) - g.FChain); room >= 2 && room <= tipH && r.Intn(2) == 0 {
+			return Op{Kind: "brollback", WF: true, N: room}
+		}
+	}
 	switch {
 	case x < 22: // block append
 		k := []int{0, 1, 1, 2, 2, 5, 17}[r.Intn(7)]
@@ -671,6 +680,7 @@ func (g *Gen) Next(malformed bool) Op {
 	case x < 59:
 		// an old database: some of the stored entries (a prefix of the
 		// chain, the tip, or a random subset) live in the root bucket
+		g.afterLegacy = true
 		op := Op{Kind: "legacy", WF: true}
 		n := len(g.Chain)
 		switch r.Intn(4) {
